@@ -12,7 +12,13 @@ Domain : generated helper flows (vf/co2.py) under a fixed `main` that only start
              match statement or after a send statement; alone / `as $ref` / in an or- / and-group): the statement can be registered when
              the head arrives, its arguments are evaluated when an event of that name is matched - the history feeds the referenced
              action's own event (or the event that lets the referenced child flow finish) while the head is parked there;
-         (b) activated flows that finish / return / abort / raise before their first waiting statement;
+             or an erroneous expression in a `return` statement (`return $items[3]` with $items = None, `return 1 / 0`, `return $undefinedvar.attr`,
+             ...), which is the LAST statement of the flow that carries it: the helper itself (awaited by another helper, started or activated
+             by main) or a child flow `retchild $items` that the helper awaits / awaits for its value / starts, with or without a waiting
+             statement before the return. Every statement-level fault either sits at the position itself (reached through the history) or in a
+             child flow with an interaction loop of its own behind `match EvC()`, so that the error arises while the canary event itself is
+             processed and the canaries have to react to that SAME event;
+         (b) activated flows that finish / return / abort / raise / fail in their first action before their first waiting statement;
          (c) two canary flows (same interaction loop as main / a loop of their own) and a ColangError watcher.
          Histories mix alphabet events, action life-cycle events, the canary event EvC and `toward` items that feed what the
          faulty helper is waiting for at that moment (so that the injected position is reached by construction, not by luck).
@@ -48,16 +54,27 @@ RULE = (
     "statement alone / `as $ref` / with a child flow waiting for the same event / inside an or- or and-group - the error only arises when an EvC value of another type is matched against it), "
     "ref-arg-match (a match on a member event of a reference created by the helper itself whose ARGUMENT is erroneous: `start X as $argref` + `match $argref.M(p=BAD)`, X in UtteranceBotAction|GestureBotAction|TimerBotAction|child flow argchild, "
     "M in Finished|Started (flows: Finished), BAD in {$cfg[\"missing\"] with $cfg undefined, {\"a\": 1}[\"nokey\"], $undefinedvar.attr, 1 / 0, 1 + \"a\"}; the match directly after the start statement / `as $ref` / after a further `match Ev0()` / after a send / "
-    "inside an or- or and-group - the head can park, the error is due when the referenced object's own event is matched), none}; for each generated "
+    "inside an or- or and-group - the head can park, the error is due when the referenced object's own event is matched), "
+    "bad-return (an erroneous expression in a `return` statement = the LAST statement of its flow: `$items = None` + `return BAD` in the helper itself, the statements after the position dropped) | bad-return-awaited-child | "
+    "bad-return-assigned-child | bad-return-started-child (`await retchild None` / `$rv = await retchild None` / `start retchild None as $retref` with `flow retchild $items` = [match Ev91()] + send Reached() + `return BAD`; "
+    "BAD in {$items[3], 1 / 0, $undefinedvar.attr, {\"a\": 1}[\"nokey\"], 1 + \"a\"}; the child with or without a waiting statement before the return), none}; "
+    "every statement-level kind (all but the match kinds) is injected either AT the position or - one case in three - BEHIND THE CANARY EVENT: the helper gets `start onevc` and the flow onevc (@loop of its own) is "
+    "`match EvC()` + marker + erroneous statement(s), so the error arises while EvC itself is processed and both canaries must still react to that same event (labels fault-behind-canary-event, fault-reached-by-canary-event); "
+    "kinds listed in PENDING_FAULTS (erroneous parameter default evaluated when the flow is started / awaited / activated, `@meta(tag=\"{BAD}\")` decorator interpolated when the flow finishes, internal flow events with a missing or "
+    "wrong-typed flow id sent by a flow, `activate` of a flow whose first action cannot be generated) are implemented but NOT generated: they break the statement on the unchanged tree and are reported as findings; for each generated "
     "program the quick tier draws the position, `enumerate_cases` walks every position x kind for a fixed family of programs (for compare-type-match: position x statement shape x nesting with a history that first "
     "delivers well-typed values and then wrong-typed ones, and operator x reference x nesting x payload class at one position; for ref-arg-match: position x statement shape with object / member / expression rotating, and object x member x expression at one position, "
-    "with histories that walk the helper to the position and then feed the referenced action's event - for a flow reference without any EvC before the child's event, because every finishing flow makes the statement evaluate); history of <=18 items incl. EvC - either free, or steered (free prefix, then 1-6 items `toward` = an event that a waiting statement of the helper carrying the fault, or of a flow it started, "
+    "with histories that walk the helper to the position and then feed the referenced action's event - for a flow reference without any EvC before the child's event, because every finishing flow makes the statement evaluate; "
+    "for every statement-level kind: every position behind the canary event, for the bad-return family also at the position, expression / child wait rotating, and placement x expression x child wait x {at the position, behind the canary event} at one position of a helper that awaits another helper, "
+    "with a history that walks the helper to the position, feeds Ev91 to the waiting child and sends EvC after every step); immediate activated flows: finish | return | abort | raise | the same after an action / send statement | restart failure through a flipped global | "
+    "first-action-arg (first statement = an action whose event cannot be generated, alone or followed by a wait); history of <=18 items incl. EvC - either free, or steered (free prefix, then 1-6 items `toward` = an event that a waiting statement of the helper carrying the fault, or of a flow it started, "
     "is waiting for at that moment: alphabet event with the parameters the statement names, the end of an action it awaits, or the Started/Finished event of the action an erroneous reference-member match refers to; three of four ref-arg-match cases are steered; then EvC items mixed with further steering; label history-steered-towards-fault) -, each EvC carrying a drawn payload "
     "(str | list | dict | None | number of the other numeric type | well-typed number not satisfying the comparison | parameter missing; optionally wrapped like the pattern's nesting; bare item = \"x1\"). "
     "Non-trivial = the fault position was reached (marker `Reached` seen, or a head was parked on the faulty match when an EvC arrived whose evaluation has to fail: any EvC for an invalid pattern, "
     "an EvC that makes a number meet a str/list/dict for a valid comparison pattern; for ref-arg-match: the referenced action's own Started/Finished event, or Ev90 that lets the referenced child flow finish, while the head is parked) or an immediate activated flow of kind abort/raise is present; distinct by case. Labels cmp-op-*, cmp-ref-*, cmp-nest-*, "
     "cmp-parked-got-<payload class> show what was delivered to a parked comparison pattern (…-not-compared: wrong type but not where the pattern compares; wrong-type-after-well-typed: the failing value came after tolerated ones). "
-    "Labels refarg-obj-*, refarg-member-*, refarg-bad-<i> and refarg-own-event-delivered-while-parked | refarg-parked-only | refarg-never-parked show how far a ref-arg-match case got."
+    "Labels refarg-obj-*, refarg-member-*, refarg-bad-<i> and refarg-own-event-delivered-while-parked | refarg-parked-only | refarg-never-parked show how far a ref-arg-match case got. "
+    "Labels ret-bad-<i>, child-waits-before-fault | child-fails-without-waiting show the bad-return family; `toward` items also feed Ev91 to the waiting child that carries the return statement."
 )
 ASSUMPTIONS = [
     "step budget = max(2000, 200 x source lines) interpreter steps (internal events processed + slides) per fed event; the order of magnitude of the largest per-event count is reported in the class histogram (steps<=N)",
@@ -66,6 +83,9 @@ ASSUMPTIONS = [
     "numbers delivered to a valid comparison pattern never satisfy it (constructed from operator and reference; checked again in prop, otherwise skipped), so the helper never legitimately advances on EvC and competes with the canary of its loop",
     "ref-arg-match: no generated flow other than the injected statement and the third canary refers to $argref, argchild or Ev90; the third canary sits in a loop of its own and only sends an event, so it can never legitimately miss an event of the name it waits for",
     "ref-arg-match: a ColangError and the failure of the flow instance are demanded only in the call that delivers the referenced object's own event (action event with the uid of the referenced action / Ev90 while the referenced child flow waits for it) to a head that is parked on the statement; failing earlier - on arrival or on another event of the same name - is accepted",
+    "fault behind the canary event: the flow onevc that carries the fault sits in an interaction loop of its own (as do the immediate flows and the children it starts), so its statements never compete with a canary for an action; the canaries must emit exactly one marker each for that very EvC",
+    "bad-return: `return` ends its flow, so the statements the helper had after the position are dropped; an awaited child that fails takes the awaiting helper with it (language semantics), a started one does not unless it fails before it has started - neither is asserted, only the unconditional parts plus the ColangError in the call that emits the marker",
+    "the marker `send Reached()` is an outgoing event: if an exception escapes run_to_completion the outgoing events of that step are dropped by process_events' retry, the marker with them - such an escape then shows through the canaries (fault behind the canary event) or the C09 invariants, not through error-not-reported",
     "a ColangError is demanded for a valid comparison pattern only when a number has to be compared with a str, list or dict; None, bool and int-vs-float are treated as unspecified (the implementation rejects them too, the check does not rely on it)",
 ]
 WALL = {"quick": 170, "thorough": 1500}
@@ -108,9 +128,56 @@ FAULTS = {
     "ref-arg-match-after-send": "REFSTART as $argref\nsend Probe(p=1)\nmatch $argref.MEMBER(PARAM=BADARG)",
     "ref-arg-match-or-group": "REFSTART as $argref\nmatch $argref.MEMBER(PARAM=BADARG) or NeverOr()",
     "ref-arg-match-and-group": "REFSTART as $argref\nmatch $argref.MEMBER(PARAM=BADARG) and NeverAnd()",
+    # an erroneous expression in a `return` statement - the LAST statement of the flow that carries it (the statements the helper had
+    # after the position are dropped): in the helper itself (awaited by another helper / started or activated by main), or in a child
+    # flow `retchild $items` (called with None; with or without a waiting statement before the return) that the helper awaits
+    # (the awaiting parent fails with it), awaits for its value, or starts (the helper goes on)
+    "bad-return": "$items = None\nreturn BADRET",
+    "bad-return-awaited-child": "await retchild None",
+    "bad-return-assigned-child": "$rv = await retchild None",
+    "bad-return-started-child": "start retchild None as $retref",
+    # an activated flow whose FIRST statement fails while its action event is generated (no waiting statement reached)
+    "activate-bad-first-action": "activate badfirstaction",
+    # an internal flow event with a missing / wrong-typed flow id, sent by the flow itself: whether each of them is an error is not
+    # specified (some are ignored) - no ColangError is demanded, only the unconditional parts
+    "bad-internal-event": "send BADEVENT",
+    # a parameter DEFAULT expression that raises: evaluated when the flow is started (start / await / activate, the parameter omitted)
+    "bad-default-start": "start defchildDEFCALL",
+    "bad-default-await": "await defchildDEFCALL",
+    "bad-default-activate": "activate defchildDEFCALL",
+    # a decorator `@meta(<tag>="{<erroneous expression>}")`: the interpolation is evaluated when the decorated flow finishes
+    "bad-meta-await": "await metachild",
+    "bad-meta-start": "start metachild",
 }
 CMP_FAULTS = ("compare-type-match", "compare-type-match-as-ref", "compare-type-match-with-child", "compare-type-match-or-group", "compare-type-match-and-group")
 REFARG_FAULTS = ("ref-arg-match", "ref-arg-match-as-ref", "ref-arg-match-after-match", "ref-arg-match-after-send", "ref-arg-match-or-group", "ref-arg-match-and-group")
+RET_FAULTS = ("bad-return", "bad-return-awaited-child", "bad-return-assigned-child", "bad-return-started-child")
+DEF_FAULTS = ("bad-default-start", "bad-default-await", "bad-default-activate")
+META_FAULTS = ("bad-meta-await", "bad-meta-start")
+# kinds whose marker `send Reached()` sits inside the child flow that carries the error (directly before the erroneous statement / as
+# the last statement of the decorated flow) instead of in front of the injected statement
+CHILD_MARKED = RET_FAULTS[1:] + META_FAULTS
+# kinds for which a ColangError is not demanded when the statement is reached (marker ReachedSoft)
+SOFT_FAULTS = ("bad-internal-event",)
+BAD_RETS = ["$items[3]", "1 / 0", "$undefinedvar.attr", '{"a": 1}["nokey"]', '1 + "a"']
+RET_CHILD_EVENT = "Ev91"
+BAD_EVENTS = [
+    "StartFlow()",
+    "StopFlow(flow_id=[1])",
+    "FinishFlow(flow_id=5)",
+    "StartFlow(flow_id=[1])",
+    'StopFlow(flow_id={"a": 1})',
+    "FinishFlow(flow_id=[1])",
+    "StopFlow(flow_instance_uid=[1])",
+    "FinishFlow(flow_instance_uid=[1])",
+    "StartFlow(flow_id=5)",
+]
+BAD_DEFAULTS = ["1 / 0", "$undefinedvar.attr", '{"a": 1}["nokey"]', '1 + "a"', "None[3]"]
+DEF_SIGS = [("$p=BAD", ""), ("$q $p=BAD", " 1")]  # (signature, arguments of the call: the parameter with the default is omitted)
+META_TAGS = ("user_intent", "bot_intent", "user_action", "bot_action")
+BAD_METAS = ["1 / 0", "$undefinedvar.attr", "[1][5]"]
+SUB_DEFAULT = {"bad": 0, "sig": 0, "tag": 0, "wait": False, "ie": 0}
+SUB_FAULTS = RET_FAULTS + DEF_FAULTS + META_FAULTS + ("activate-bad-first-action", "bad-internal-event")
 MATCH_FAULTS = ("bad-regex-match", "bad-compare-match", "bad-regex-match-with-child", "bad-regex-match-or-group", "bad-regex-match-and-group") + CMP_FAULTS + REFARG_FAULTS
 # reference-member matches with an erroneous argument: referenced object (statement that creates it, event type prefix, parameter
 # named in the match) x member event x erroneous argument expression. The child flow `argchild` finishes on the event Ev90.
@@ -152,6 +219,9 @@ IMMEDIATE = {
     # the first instance is fine; after EvZ set the global to 0 the *restarted* instance fails before its first wait
     "cond-raise": ["global $gd", 'start GestureBotAction(gesture="pre")', "$z = 10 / $gd", "match EvC()", "send ImmDone()"],
     "cond-raise-plain": ["global $gd", "$z = 10 / $gd", "match EvC()"],
+    # the FIRST statement is an action whose event cannot be generated (wrong argument type): the flow fails while it is starting
+    "first-action-arg": ["await UtteranceBotAction(script=None)"],
+    "first-action-arg-then-wait": ["await UtteranceBotAction(script=None)", "match EvC()", "send ImmDone()"],
 }
 MAIN_SURVIVES = ("finish", "return", "cond-raise", "cond-raise-plain")
 # Open known finding C10-F18: an activated flow whose only waits are for a child flow that finishes without any external event
@@ -160,6 +230,15 @@ KNOWN_IMMEDIATE = {
     "child-finish": ["await immchild"],
     "child-raise": ["await immchild", '$z = 1 + "a"'],
 }
+
+
+# Fault kinds that break the statement on the UNCHANGED tree (reported to the coordinator with repro files, not yet listed in
+# known_findings.json): buildable for the repro files, but neither drawn nor enumerated until the repository is repaired - then empty
+# this tuple. The error is raised outside the try block of _advance_head_front (create_flow_instance evaluating a default,
+# _log_action_or_intents interpolating a meta tag when the flow finishes, the internal-event handlers indexing / hashing the flow id):
+# it escapes run_to_completion, the outgoing events of that processing step are lost and the canaries do not react to the event;
+# two flows activating, on the same event, a flow whose first action cannot be generated never terminates.
+PENDING_FAULTS = ("bad-default-start", "bad-default-await", "bad-default-activate", "bad-meta-await", "bad-meta-start", "bad-internal-event", "activate-bad-first-action")
 
 
 def known(case, violation):
@@ -366,7 +445,7 @@ def budget(tier):
 def _case(draw):
     prog = draw(co2.programs(profile={"exits": True, "recursion": True}, max_helpers=4))
     helpers = prog["flows"][:-1]
-    kind = draw(st.sampled_from(list(FAULTS) + ["none"]))
+    kind = draw(st.sampled_from([k for k in FAULTS if k not in PENDING_FAULTS] + ["none"]))
     h = draw(st.integers(0, len(helpers) - 1))
     # a flow that fails before its first wait legitimately fails the flow that starts it: inject only after the first wait
     first_wait = next(i for i, st_ in enumerate(helpers[h]["body"]) if st_["k"] in ("match", "matchg"))
@@ -383,6 +462,14 @@ def _case(draw):
         hist = draw(st.lists(hist_item, max_size=4)) + draw(st.lists(toward, min_size=1, max_size=6))
         hist += draw(st.lists(st.one_of(st.just(["evc"]), _evc_item(), _evc_item(), toward, hist_item), min_size=2, max_size=8))
     fault = {"kind": kind, "helper": h, "pos": pos}
+    # the statement-level faults either sit at the position itself (reached through the history) or in a child flow with a loop of
+    # its own behind `match EvC()`: then the error arises while the canary event itself is processed
+    on_evc = draw(st.sampled_from([False, False, True]))
+    if on_evc and kind != "none" and kind not in MATCH_FAULTS:
+        fault["on_evc"] = True
+    sub = draw(st.fixed_dictionaries({"bad": st.integers(0, 4), "wait": st.booleans(), "sig": st.integers(0, len(DEF_SIGS) - 1), "tag": st.integers(0, len(META_TAGS) - 1), "ie": st.integers(0, len(BAD_EVENTS) - 1)}))
+    if kind in SUB_FAULTS:
+        fault["sub"] = sub
     cmp = draw(st.fixed_dictionaries({"op": st.sampled_from(sorted(CMP_OPS)), "ref": st.sampled_from(CMP_REFS), "nest": st.sampled_from(("plain",) + CMP_NESTS)}))
     if kind in CMP_FAULTS:
         fault["cmp"] = cmp
@@ -424,8 +511,8 @@ def enumerate_cases(tier):
         for h, fl in enumerate(helpers):
             for pos in range(1, len(fl["body"]) + 1):
                 for kind in FAULTS:
-                    if kind in REFARG_FAULTS:
-                        continue  # need a history that feeds the referenced object's event: own family below
+                    if kind in REFARG_FAULTS or kind in PENDING_FAULTS:
+                        continue  # need a history that feeds the referenced object's event: own family below / not generated
                     yield {"helpers": helpers, "fault": {"kind": kind, "helper": h, "pos": pos}, "imm": [], "hist": hist, "choices": [], "activate_helpers": False}
     # comparison patterns: (a) every position x statement shape with a history that parks the head, delivers well-typed values that
     # do not satisfy the comparison and only then a value of a wrong type; (b) operator x reference x nesting x payload class at one position
@@ -462,6 +549,33 @@ def enumerate_cases(tier):
     for o, m, b in combos:
         for act in (False, True):
             yield {"helpers": fam[0], "fault": {"kind": "ref-arg-match", "helper": 0, "pos": 1, "ref": {"obj": o, "member": m, "bad": b}}, "imm": [], "hist": hist_f if o == "flow" else hist_r, "choices": [], "activate_helpers": act}
+    # statement-level faults behind the canary event (every position x kind), and the families with an erroneous expression in a
+    # return statement / parameter default / meta decorator, malformed internal events, an activated flow failing in its first action:
+    # (a) every position x kind x {at the position, behind the canary event} with the sub-parameters rotating, (b) the sub-parameter
+    # products at one position. The history walks the helper to the position and feeds what the child flow carrying the fault waits for.
+    n = 0
+    for helpers in fam:
+        for h, fl in enumerate(helpers):
+            for pos in range(1, len(fl["body"]) + 1):
+                for kind in FAULTS:
+                    if kind in MATCH_FAULTS or kind in PENDING_FAULTS:
+                        continue
+                    for on_evc in (True, False) if kind in SUB_FAULTS else (True,):
+                        n += 1
+                        fault = {"kind": kind, "helper": h, "pos": pos, "on_evc": on_evc}
+                        if kind in SUB_FAULTS:
+                            fault["sub"] = {"bad": n % 5, "wait": n % 3 == 0, "sig": n % 2, "tag": n % 4, "ie": n % len(BAD_EVENTS)}
+                        yield {"helpers": helpers, "fault": fault, "imm": [], "hist": hist_r, "choices": [], "activate_helpers": n % 4 == 0}
+    prods = [(k, {"bad": b, "wait": w}) for k in RET_FAULTS for b in range(len(BAD_RETS)) for w in ((False, True) if k != "bad-return" else (False,))]
+    prods += [(k, {"bad": b, "sig": g}) for k in DEF_FAULTS for b in range(len(BAD_DEFAULTS)) for g in range(len(DEF_SIGS))]
+    prods += [(k, {"bad": b, "tag": t, "wait": w}) for k in META_FAULTS for b in range(len(BAD_METAS)) for t in range(len(META_TAGS)) for w in (False, True)]
+    prods += [("bad-internal-event", {"ie": i}) for i in range(len(BAD_EVENTS))]
+    prods += [("activate-bad-first-action", {"wait": w}) for w in (False, True)]
+    for kind, sub in prods:
+        for on_evc in (False, True):
+            if kind in PENDING_FAULTS:
+                continue
+            yield {"helpers": fam[1], "fault": {"kind": kind, "helper": 0, "pos": 1, "on_evc": on_evc, "sub": sub}, "imm": [], "hist": hist_r, "choices": [], "activate_helpers": on_evc and sub.get("bad", 0) % 2 == 1}
     hist_z = [["evc"], ["evz"], ["evc"], ["evc"], ["ev", 0, None], ["evc"]]
     for imm in IMMEDIATE:
         for act in (False, True):
@@ -469,24 +583,65 @@ def enumerate_cases(tier):
                 yield {"helpers": fam[0], "fault": {"kind": "none", "helper": 0, "pos": 0}, "imm": [imm], "hist": h, "choices": [], "activate_helpers": act}
 
 
+def _sub_of(case):
+    d = dict(SUB_DEFAULT)
+    d.update(case["fault"].get("sub") or {})
+    return d
+
+
+def _on_evc(case):
+    """The injected statements sit in a child flow of the helper (interaction loop of its own) behind `match EvC()`: the fault is
+    reached while the canary event itself is processed."""
+    f = case["fault"]
+    return bool(f.get("on_evc")) and f["kind"] != "none" and f["kind"] not in MATCH_FAULTS
+
+
+def _raw(lines):
+    return [{"k": "raw", "text": t} for t in lines]
+
+
 def build(case):
     helpers = [dict(h) for h in case["helpers"]]
     f = case["fault"]
-    if f["kind"] != "none":
+    kind = f["kind"]
+    sub = _sub_of(case)
+    flows_extra = []
+    if kind != "none":
         h = dict(helpers[f["helper"] % len(helpers)])
         body = list(h["body"])
         pos = min(f["pos"], len(body))
-        text = FAULTS[f["kind"]].replace("hlast", f"h{len(helpers) - 1}" if (f["helper"] % len(helpers)) != len(helpers) - 1 else "canaryhelper")
+        text = FAULTS[kind].replace("hlast", f"h{len(helpers) - 1}" if (f["helper"] % len(helpers)) != len(helpers) - 1 else "canaryhelper")
         text = text.replace("CMP", _cmp_text(_cmp_of(case)))
-        if f["kind"] in REFARG_FAULTS:
+        if kind in REFARG_FAULTS:
             ref = _ref_of(case)
             text = text.replace("REFSTART", REF_OBJS[ref["obj"]][0]).replace("MEMBER", ref["member"]).replace("PARAM", REF_OBJS[ref["obj"]][2])
             text = text.replace("BADARG", BAD_ARGS[ref["bad"] % len(BAD_ARGS)])
-        lines = [{"k": "raw", "text": t} for t in text.split("\n")]
-        inj = lines if f["kind"] in MATCH_FAULTS else [{"k": "raw", "text": "send Reached()"}] + lines
-        h["body"] = body[:pos] + inj + body[pos:]
+        bad_ret = BAD_RETS[sub["bad"] % len(BAD_RETS)]
+        text = text.replace("BADRET", bad_ret).replace("BADEVENT", BAD_EVENTS[sub["ie"] % len(BAD_EVENTS)])
+        sig, call = DEF_SIGS[sub["sig"] % len(DEF_SIGS)]
+        text = text.replace("DEFCALL", call)
+        lines = _raw(text.split("\n"))
+        if kind in MATCH_FAULTS or kind in CHILD_MARKED:
+            inj = lines
+        else:
+            inj = _raw(["send ReachedSoft()" if kind in SOFT_FAULTS else "send Reached()"]) + lines
+        # a `return` statement is the last statement of its flow: what the helper had after the position is dropped
+        tail = [] if kind == "bad-return" else body[pos:]
+        if _on_evc(case):
+            flows_extra.append({"name": "onevc", "params": [], "loop": "onevcloop", "body": _raw(["match EvC()"]) + inj})
+            inj, tail = _raw(["start onevc"]), body[pos:]
+        h["body"] = body[:pos] + inj + tail
         helpers[f["helper"] % len(helpers)] = h
-    flows = list(helpers)
+        wait = _raw([f"match {RET_CHILD_EVENT}()"]) if sub["wait"] else []
+        if kind in RET_FAULTS[1:]:
+            flows_extra.append({"name": "retchild", "params": ["items"], "loop": None, "body": wait + _raw(["send Reached()", "return " + bad_ret])})
+        if kind == "activate-bad-first-action":
+            flows_extra.append({"name": "badfirstaction", "params": [], "loop": None, "body": _raw(["await UtteranceBotAction(script=None)"]) + wait})
+        if kind in DEF_FAULTS:
+            flows_extra.append({"name": "defchild", "params": [sig.replace("BAD", BAD_DEFAULTS[sub["bad"] % len(BAD_DEFAULTS)])[1:]], "loop": None, "body": _raw(["match NeverDef()"])})
+        if kind in META_FAULTS:
+            flows_extra.append({"name": "metachild", "params": [], "loop": None, "body": wait + _raw(["send Reached()"])})
+    flows = list(helpers) + flows_extra
     flows.append({"name": "canaryhelper", "params": [], "loop": None, "body": [{"k": "raw", "text": "match NeverHelper()"}]})
     flows.append({"name": "evcchild", "params": [], "loop": None, "body": [{"k": "raw", "text": "match EvC()"}, {"k": "raw", "text": "match NeverChild()"}]})
     flows.append({"name": "immchild", "params": [], "loop": None, "body": [{"k": "raw", "text": "send ImmChildOut()"}]})
@@ -495,14 +650,14 @@ def build(case):
     flows.append({"name": "canary2", "params": [], "loop": "canaryloop", "body": [{"k": "raw", "text": "match EvC()"}, {"k": "raw", "text": "send Canary2Out()"}]})
     flows.append({"name": "watcher", "params": [], "loop": "watchloop", "body": [{"k": "raw", "text": "match ColangError() as $e"}, {"k": "raw", "text": "send SawError(t=$e.type)"}]})
     main = [{"k": "raw", "text": "global $gd"}, {"k": "raw", "text": "$gd = 1"}, {"k": "raw", "text": "activate canary"}, {"k": "raw", "text": "activate canary2"}, {"k": "raw", "text": "activate watcher"}, {"k": "raw", "text": "activate gdsetter"}]
-    if f["kind"] in REFARG_FAULTS:
+    if kind in REFARG_FAULTS:
         # the referenced child flow, and a third canary (loop of its own) that reacts to EVERY event of the name the erroneous
         # statement waits for (the action event / the event that lets the child flow finish)
         flows.append({"name": "argchild", "params": [], "loop": None, "body": [{"k": "raw", "text": f"match {REF_CHILD_EVENT}()"}]})
         flows.append({"name": "canary3", "params": [], "loop": "canary3loop", "body": [{"k": "raw", "text": f"match {_canary3_event(case)}()"}, {"k": "raw", "text": "send Canary3Out()"}]})
         main.append({"k": "raw", "text": "activate canary3"})
-    for i, kind in enumerate(case["imm"]):
-        body = IMMEDIATE.get(kind) or KNOWN_IMMEDIATE[kind]
+    for i, ikind in enumerate(case["imm"]):
+        body = IMMEDIATE.get(ikind) or KNOWN_IMMEDIATE[ikind]
         # a loop of its own: a flow that reacts to the canary event must not compete with the canaries for an action
         flows.append({"name": f"imm{i}", "params": [], "loop": "NEW", "body": [{"k": "raw", "text": t} for t in body]})
         main.append({"k": "raw", "text": f"activate imm{i}"})
@@ -511,7 +666,11 @@ def build(case):
             main.append({"k": "raw", "text": ("activate " if case["activate_helpers"] else "start ") + h["name"]})
     main.append({"k": "raw", "text": "match Never()"})
     flows.append({"name": "main", "params": [], "loop": None, "body": main})
-    return co2.render({"flows": flows})
+    text = co2.render({"flows": flows})
+    if kind in META_FAULTS:
+        deco = '@meta(%s="{%s}")\n' % (META_TAGS[sub["tag"] % len(META_TAGS)], BAD_METAS[sub["bad"] % len(BAD_METAS)])
+        text = text.replace("flow metachild\n", deco + "flow metachild\n")
+    return text
 
 
 def _runtime():
@@ -557,11 +716,14 @@ def prop(case):
     kind = case["fault"]["kind"]
     cmp = _cmp_of(case)
     ref = _ref_of(case)
+    sub = _sub_of(case)
     ref_parked_seen = False
     ref_delivered = 0
     delivered = set()
     benign_parked = False
     toward_used = 0
+    evc_triggers = 0
+    soft_reached = False
     max_steps = 0
     loop = asyncio.new_event_loop()
     real_sleep = rmod.asyncio.sleep
@@ -597,7 +759,7 @@ def prop(case):
         out, state = run([], None)
         ledger(out)
         types = smh.types(out)
-        reached |= "Reached" in types
+        reached |= "Reached" in types or "ReachedSoft" in types
         saw_error |= "SawError" in types
         if "Reached" in types and "SawError" not in types:
             raise Violation("error-not-reported", f"fault {kind} reached at start but no ColangError was observed; events {types}\n{text}")
@@ -611,7 +773,7 @@ def prop(case):
         if bad:
             raise Violation(bad[0][0], f"after start: {bad[0][1]}\n{text}")
         for i, item in enumerate(case["hist"]):
-            parked_fault = must_fail = False
+            parked_fault = must_fail = trigger_parked = False
             if item[0] == "evz":
                 ev = {"type": "EvZ"}
             elif item[0] == "evc":
@@ -624,6 +786,9 @@ def prop(case):
                     return ok(skip="payload-could-satisfy-the-comparison")
                 waiting = smh.scan_matchers(state).get("EvC", [])
                 parked_fault = any(state.flow_states[f].flow_id.startswith("h") for f, _ in waiting)
+                # the child flow that carries the fault behind `match EvC()`: this very event walks it into the erroneous statement
+                trigger_parked = any(state.flow_states[f].flow_id == "onevc" for f, _ in waiting)
+                evc_triggers += trigger_parked
                 # an erroneous pattern fails whatever arrives; a valid comparison pattern only when it has to compare a non-number
                 must_fail = parked_fault and (kind not in CMP_FAULTS or compare_must_fail(cmp, has_v, value))
                 if parked_fault and kind in CMP_FAULTS:
@@ -678,14 +843,16 @@ def prop(case):
                 reached = True
                 if "SawError" not in types:
                     raise Violation("error-not-reported", f"fault {kind} reached on event #{i} {ev} but no ColangError was observed; events {types}\n{text}")
+            if "ReachedSoft" in types:
+                reached = soft_reached = True
             saw_error |= "SawError" in types
             if item[0] == "evc":
                 canary_checks += 1
                 c1, c2 = types.count("CanaryOut"), types.count("Canary2Out")
                 if (c1, c2) != (1, 1):
                     raise Violation(
-                        "canary-starved" if parked_fault else "canary-miscount",
-                        f"after EvC (#{i}) {ev} canaries emitted CanaryOut x{c1}, Canary2Out x{c2} (expected 1 and 1); faulty head parked on EvC: {parked_fault}; events {types}\n{text}",
+                        "canary-starved" if parked_fault or trigger_parked else "canary-miscount",
+                        f"after EvC (#{i}) {ev} canaries emitted CanaryOut x{c1}, Canary2Out x{c2} (expected 1 and 1); faulty head parked on EvC: {parked_fault}; flow carrying fault {kind} parked on EvC: {trigger_parked}; events {types}\n{text}",
                     )
                 if must_fail:
                     reached = True
@@ -708,6 +875,20 @@ def prop(case):
     if kind in REFARG_FAULTS:
         labels += ["refarg-obj-" + ref["obj"], "refarg-member-" + ref["member"], "refarg-bad-%d" % (ref["bad"] % len(BAD_ARGS))]
         labels.append("refarg-own-event-delivered-while-parked" if ref_delivered else "refarg-parked-only" if ref_parked_seen else "refarg-never-parked")
+    if kind in SUB_FAULTS:
+        if kind in RET_FAULTS:
+            labels += ["ret-bad-%d" % (sub["bad"] % len(BAD_RETS))]
+        if kind in DEF_FAULTS:
+            labels += ["default-bad-%d" % (sub["bad"] % len(BAD_DEFAULTS)), "default-sig-%d" % (sub["sig"] % len(DEF_SIGS))]
+        if kind in META_FAULTS:
+            labels += ["meta-tag-" + META_TAGS[sub["tag"] % len(META_TAGS)], "meta-bad-%d" % (sub["bad"] % len(BAD_METAS))]
+        if kind == "bad-internal-event":
+            labels += ["internal-event-%d" % (sub["ie"] % len(BAD_EVENTS)), "internal-event-raised" if soft_reached and saw_error else "internal-event-tolerated" if soft_reached else "internal-event-not-sent"]
+        if kind in CHILD_MARKED:
+            labels.append("child-waits-before-fault" if sub["wait"] else "child-fails-without-waiting")
+    if _on_evc(case):
+        labels.append("fault-behind-canary-event")
+        labels.append("fault-reached-by-canary-event" if evc_triggers and reached else "fault-behind-canary-event-not-reached")
     if saw_error:
         labels.append("colang-error-seen")
     if case["activate_helpers"]:
